@@ -42,11 +42,13 @@ type lossBasedBandwidthEstimator struct {
 	log            logging.LeveledLogger
 }
 
-func newLossBasedBWE(initialBitrate int, loggerFactory logging.LoggerFactory) *lossBasedBandwidthEstimator {
+func newLossBasedBWE(
+	initialBitrate, minBitrate, maxBitrate int, loggerFactory logging.LoggerFactory,
+) *lossBasedBandwidthEstimator {
 	return &lossBasedBandwidthEstimator{
 		lock:           sync.Mutex{},
-		maxBitrate:     100_000_000, // 100 mbit
-		minBitrate:     100_000,     // 100 kbit
+		maxBitrate:     maxBitrate,
+		minBitrate:     minBitrate,
 		bitrate:        initialBitrate,
 		averageLoss:    0,
 		lastLossUpdate: time.Time{},
